@@ -101,7 +101,7 @@ class FStream(MemStream):
         return MemStream.write(self, data)
 
 
-def make_pair(plan, clock, hook_raises=False):
+def make_pair(plan, clock, hook_raises=False, bc_raises=False):
     sa, sb = FStream("A"), FStream("B")
     sa.peer, sb.peer = sb, sa
     for s in (sa, sb):
@@ -115,8 +115,11 @@ def make_pair(plan, clock, hook_raises=False):
             return False
         return f
     sa.fault, sb.fault = fault_for(sa), fault_for(sb)
-    A = Connection(Svc("A", hook_raises), Channel(sa), config={"sync_request_timeout": 5})
-    B = Connection(Svc("B", hook_raises), Channel(sb), config={"sync_request_timeout": 5, "allow_public_attrs": True})
+    def bc(root):
+        raise HookError("before_closed")
+    extra = {"before_closed": bc} if bc_raises else {}      # something other than EOFError goes wrong inside close() (close_catchall is off)
+    A = Connection(Svc("A", hook_raises), Channel(sa), config=dict({"sync_request_timeout": 5}, **extra))
+    B = Connection(Svc("B", hook_raises), Channel(sb), config=dict({"sync_request_timeout": 5, "allow_public_attrs": True}, **extra))
     A._local_root.conn, B._local_root.conn = A, B        # (Connection built directly: Service._connect / on_connect did not run)
     log = {"A": [], "B": []}
     disp_eof = {"A": False, "B": False}
@@ -182,13 +185,13 @@ WORKLOADS = ["sync", "async", "nested", "refs", "fire", "closeinhandler", "pendi
 CLOSES = ["AB", "BA", "A|B", "B|A", "A", "B", "none"]
 
 
-def run_case(workload, closes, plan, hook_raises=False):
+def run_case(workload, closes, plan, hook_raises=False, bc_raises=False):
     clock = VClock()
     old_time = rpyc.lib.time
     rpyc.lib.time = clock
     orig_hc = Connection._handle_close
     try:
-        A, B, sa, sb, log, must, checks, instrument = make_pair(plan, clock, hook_raises)
+        A, B, sa, sb, log, must, checks, instrument = make_pair(plan, clock, hook_raises, bc_raises)
         serving_all = {"B": 0}
         instrument("A", A, A._local_root, lambda: 0)
         instrument("B", B, B._local_root, lambda: 1 if serving_all["B"] else 0)
@@ -272,7 +275,7 @@ def run_case(workload, closes, plan, hook_raises=False):
             except Hang:
                 results.append((label, "hang", None))
             except HookError:            # the thread whose wait ran the cleanup gets its own service's exception: not a hang, not a value
-                results.append((label, "hook-error" if hook_raises else "exc:HookError", None))
+                results.append((label, "hook-error" if (hook_raises or bc_raises) else "exc:HookError", None))
             except Exception as e:
                 results.append((label, "exc:" + type(e).__name__, None))
         local_obj = [9]
@@ -324,7 +327,7 @@ def run_case(workload, closes, plan, hook_raises=False):
                 except EOFError:
                     results.append(("close" + who, "EOFError-from-close", None))
                 except HookError:
-                    results.append(("close" + who, "hook-error-from-close" if hook_raises else "exc-from-close:HookError", None))
+                    results.append(("close" + who, "hook-error-from-close" if (hook_raises or bc_raises) else "exc-from-close:HookError", None))
                 except Exception as e:
                     results.append(("close" + who, "exc-from-close:" + type(e).__name__, None))
                 # let the other side notice (unless the other side is about to close at the same moment)
@@ -349,6 +352,7 @@ def run_case(workload, closes, plan, hook_raises=False):
                 except Exception as e:
                     again[nm] = "raised " + type(e).__name__
         svcA.hook_raises = svcB.hook_raises = False      # connections never closed in this run are closed by __del__: keep that quiet
+        A._config.pop("before_closed", None); B._config.pop("before_closed", None)
         return {"results": results, "final": final, "log": log, "must": {k: sorted(v) for k, v in must.items()}, "checks": checks,
                 "io": {"A": list(sa.io_log), "B": list(sb.io_log)}, "hit": sa.hit or sb.hit, "again": again}
     finally:
@@ -428,6 +432,10 @@ def run(ctx):
                         offs = [0, 1, 7, 13] if ctx.quick else [0, 1, 2, 4, 5, 6, 7, 9, 13, 20, 40]
                         for k in offs:
                             plans.append(Fault(side, i, k))
+            bc_base = run_case(wl, cl, None, False, True)
+            oracle(ctx, {"workload": wl, "closes": cl, "fault": None, "before_closed_raises": True}, bc_base)
+            ctx.case((wl, cl, None, "before_closed"), nontrivial=True, sample={"workload": wl, "closes": cl, "before_closed_raises": True, "final": bc_base["final"], "results": bc_base["results"]})
+            ctx.count("before_closed-hook-raises")
             hk_base = run_case(wl, cl, None, True)
             oracle(ctx, {"workload": wl, "closes": cl, "fault": None, "hook_raises": True}, hk_base)
             ctx.case((wl, cl, None, "hook"), nontrivial=True, sample={"workload": wl, "closes": cl, "hook_raises": True, "final": hk_base["final"], "results": hk_base["results"]})
@@ -493,6 +501,6 @@ def replay(ctx, rep):
             ctx.violation("waiter-hangs-after-end-of-stream", cs, observed=out["deadlock"][:300], expected="EOFError", what="a blocked waiter stayed blocked forever after the stream ended")
         return
     p = Fault(*cs["fault"]) if cs.get("fault") else None
-    out = run_case(cs["workload"], cs["closes"], p, bool(cs.get("hook_raises")))
+    out = run_case(cs["workload"], cs["closes"], p, bool(cs.get("hook_raises")), bool(cs.get("before_closed_raises")))
     oracle(ctx, cs, out)
     ctx.case(("replay", str(cs)), True)
